@@ -81,6 +81,8 @@ def run(tier, seed):
             for via in vias:
                 order = list(others)
                 rnd.shuffle(order)
+                if tier == 'quick':
+                    order = order[:20]          # quick tier: twenty predecessors (every text is a predecessor of many others across the run)
                 jobs.append(dict(with_functions=False, calls=[[via, h] for h in order] + [last], last=last, construct_first=rnd.random() < 0.5))
             for h in rnd.sample(others, min(len(others), 2 if tier == 'quick' else 4)):
                 jobs.append(dict(with_functions=False, calls=[[rnd.choice(['compile', api]), h], last], last=last, construct_first=rnd.random() < 0.5))
